@@ -156,6 +156,8 @@ func runC14(w *World, r *Report) {
 	r.Rule("C14-R2", "who-may-write the buffer; handler sees the buffer", "Packer.msgs is written only by the append, the reset and NewPacker; each handler call receives a direct read of p.msgs", 7)
 	r.Rule("C14-R3", "reset after every flush", "after each handler call the reset (checkers Reset, memoryProtector.Remove(currentMsgPackSize), msgs = empty, size = 0) runs on every exit path, directly or through the deferred block whose flag is set on that path", 4)
 	r.Rule("C14-R4", "size accounting balance", "each path of Receive calls memoryProtector.Add exactly once with the very value added to currentMsgPackSize; currentMsgPackSize and MemoryProtector.current are written nowhere else", 6)
+	r.Rule("C14-R8", "the global threshold tests the global counter", "MemoryProtector.Add adds the size to the shared counter and returns the comparison of that counter (not of the single pack) with the limit; Remove subtracts from the same counter", 2)
+	c14Protector(w, r)
 	r.Rule("C14-R5", "handler error is returned", "every return reachable after a handler call returns that call's error", 4)
 	r.Rule("C14-R6", "final flush registered before the loop", "in the DML goroutine of startReplicateDMLMsg a deferred ClearMsgs(cb) dominates the packer.Receive(…, cb) call, with the same packer and callback", 1)
 	r.Rule("C14-R7", "checker state encapsulation", "fields of TimerChecker, MsgCountChecker and MemoryProtector are written only by their own methods/constructors; MemoryProtector.current only under its lock", 3)
@@ -674,3 +676,50 @@ func fnSym(fn *ssa.Function) sym {
 }
 
 var _ = types.Identical
+
+// c14Protector: C14-R8.
+func c14Protector(w *World, r *Report) {
+	add := w.Func(pkgPacker, "MemoryProtector", "Add")
+	rem := w.Func(pkgPacker, "MemoryProtector", "Remove")
+	if add == nil || rem == nil {
+		r.Undecided("C14-R8", "MemoryProtector", 0, "anchor not found")
+		return
+	}
+	okCmp, okAdd := false, false
+	eachInstr(add, func(in ssa.Instruction) {
+		if st, ok := in.(*ssa.Store); ok && strings.HasSuffix(w.accessPath(st.Addr), ".current") {
+			if bo, isB := st.Val.(*ssa.BinOp); isB && bo.Op == token.ADD && (bo.X == ssa.Value(add.Params[1]) || bo.Y == ssa.Value(add.Params[1])) {
+				okAdd = true
+			}
+		}
+		if ret, ok := in.(*ssa.Return); ok && len(ret.Results) == 1 {
+			if bo, isB := returnedValue(ret, 0).(*ssa.BinOp); isB && (bo.Op == token.GTR || bo.Op == token.GEQ || bo.Op == token.LSS || bo.Op == token.LEQ) {
+				x, y := w.accessPath(bo.X), w.accessPath(bo.Y)
+				cur := strings.HasSuffix(x, ".current") || strings.HasSuffix(y, ".current") || derivesFromField(bo.X, "current") || derivesFromField(bo.Y, "current")
+				max := strings.HasSuffix(x, ".max") || strings.HasSuffix(y, ".max")
+				if cur && max {
+					okCmp = true
+				}
+			}
+		}
+	})
+	r.Check(okAdd && okCmp, "C14-R8", "(*MemoryProtector).Add | counter += size; return counter > max", add.Pos(), "the shared counter is compared with the limit", "Add does not compare the shared buffered-bytes counter with the limit (it compares something else, e.g. the single pack's size): several batchers together can exceed the memory budget without any of them flushing")
+	okSub := false
+	eachInstr(rem, func(in ssa.Instruction) {
+		if st, ok := in.(*ssa.Store); ok && strings.HasSuffix(w.accessPath(st.Addr), ".current") {
+			if bo, isB := st.Val.(*ssa.BinOp); isB && bo.Op == token.SUB && bo.Y == ssa.Value(rem.Params[1]) {
+				okSub = true
+			}
+		}
+	})
+	r.Check(okSub, "C14-R8", "(*MemoryProtector).Remove | counter -= size", rem.Pos(), "subtracts from the shared counter", "Remove does not subtract the given size from the shared counter: the counter no longer returns to zero when all batchers are empty")
+}
+
+func derivesFromField(v ssa.Value, field string) bool {
+	for _, x := range backSlice(v, SliceOpts{MaxDepth: 4}) {
+		if fa, ok := x.(*ssa.FieldAddr); ok && fieldName(fa.X.Type(), fa.Field) == field {
+			return true
+		}
+	}
+	return false
+}
